@@ -66,7 +66,7 @@ class Ctx:
         v = {"property": prop, "monitor": mon, "what": what, "detail": detail,
              "case": case if case is not None else self.current_case,
              "seed": self.seed, "shard": self.shard,
-             "hashseed": os.environ.get("PYTHONHASHSEED", "")}
+             "hashseed": os.environ.get("PYTHONHASHSEED", ""), "optimize": sys.flags.optimize}
         fid = None
         if self.classifier is not None:
             with monitor.oracle():
@@ -134,7 +134,7 @@ class Ctx:
             "timeouts": self.timeouts, "extra": self.extra,
             "monitor_counts": dict(STATE.counts), "monitor_errors": dict(STATE.errors),
             "monitor_first_errors": monitor.first_errors(), "wall_s": self.elapsed(),
-            "hashseed": os.environ.get("PYTHONHASHSEED", ""),
+            "hashseed": os.environ.get("PYTHONHASHSEED", ""), "optimize": sys.flags.optimize,
         }
 
 
@@ -173,7 +173,10 @@ def run_parent(prop: str, tier: str, seed: int, mod) -> int:
         # set iteration order is a hidden input of union_simplify / intersect_simplify: vary it per shard
         env["PYTHONHASHSEED"] = str((seed + i) % 16)
         env["PYTHONDONTWRITEBYTECODE"] = "1"
-        cmd = [sys.executable, "-m", "vf.main", prop, "--tier", tier, "--seed", str(seed),
+        # the last shard runs the code under test with `python -O` (assert statements stripped): the properties do not
+        # depend on how the interpreter was started
+        opt = ["-O"] if (nshards > 1 and i == nshards - 1) else []
+        cmd = [sys.executable, *opt, "-m", "vf.main", prop, "--tier", tier, "--seed", str(seed),
                "--shard", str(i), "--nshards", str(nshards), "--shard-out", out]
         procs.append((i, out, subprocess.Popen(cmd, cwd=VERIF, env=env, stdout=subprocess.PIPE,
                                                stderr=subprocess.PIPE, text=True)))
@@ -215,6 +218,7 @@ def run_parent(prop: str, tier: str, seed: int, mod) -> int:
         for k, v in d["monitor_first_errors"].items():
             merged["monitor_first_errors"].setdefault(k, v)
         merged["hashseeds"].add(d["hashseed"])
+        merged.setdefault("optimize_levels", set()).add(int(d.get("optimize", 0)))
         for spec, v in d.get("anchor_lines", {}).items():
             cur = merged.setdefault("anchor_lines", {}).setdefault(spec, {"hit": set(), "all": set()})
             if isinstance(v, dict):
@@ -281,6 +285,7 @@ def run_parent(prop: str, tier: str, seed: int, mod) -> int:
         "known_finding_hits": dict(merged["known_hits"]),
         "known_findings_reproduced": merged["known_witness"],
         "hash_seeds": sorted(merged["hashseeds"]),
+        "interpreter_optimize_levels": sorted(merged.get("optimize_levels", {0})),
         "shards": nshards,
         "verdict": "violated" if merged["viol_count"] else ("inconclusive" if reasons else "held-on-observed"),
         "inconclusive_reasons": reasons,
